@@ -347,6 +347,9 @@ func vfRunTW(c vfTWCase) *kit.Result {
 		r.Failf("no CPTR file was written")
 		return r
 	}
+	if rotCheck {
+		rotFiles = len(names)
+	}
 	next := 0
 	want := make([]byte, c.FrameSize)
 	for _, n := range names {
@@ -430,3 +433,29 @@ func TestVF_C18(t *testing.T) {
 		"generated: camera header with FrameSize 8..39040, 0-1500 frames whose bytes are a function of (seed, frame number), optionally a final incomplete frame, sender chunking (1 byte .. 100 kB writes spanning frame boundaries) and pauses, GOMAXPROCS in {1,2,4,16}, 0-3 CPU-burning goroutines; the real handleConn of thermal-writer on a pipe, built with the race detector. Oracle (round-trip): after handleConn has returned and the writer goroutine has exited (seen in the goroutine dump), an independent CPTR parser (magic, version 2, 'H' section with model, brand, fps, resolution, compression 0, device name/id, timestamp; 'F' sections with exactly one FrameSize field) recovers exactly the complete frames sent, once, in order, byte for byte, with no trailing bytes; zero race reports. Non-trivial: more than 256 frames (every buffer recycled) and a logged write backlog of at least 200 of the 256 frames in flight.",
 		vfGenTW, vfRunTW)
 }
+
+// TestVF_C18_Rotation (thorough only): one connection lasting longer than a minute, so that the writer
+// rotates to a new file at least once; every frame must be in exactly one file, in order.
+func TestVF_C18_Rotation(t *testing.T) {
+	s := kit.Begin("C18", "TestVF_C18_Rotation", "one paced connection of 64 s (frames of 640 bytes every 20 ms), so that the per-minute file rotation happens; the CPTR files together must hold every frame once, in order, and there must be at least two files")
+	defer s.End()
+	c := vfTWCase{FrameSize: 640, Frames: 3200, Seed: 77, PauseEach: 1, PauseUs: 20000, Procs: 4, W: 160, H: 120, FPS: 9, Model: "lepton3", Brand: "flir", DevName: "rot", DevID: 1}
+	rotCheck = true
+	defer func() { rotCheck = false }()
+	r := vfRunTW(c)
+	r.NT = true
+	s.Record(c, r)
+	s.Record(map[string]int{"files": rotFiles}, &kit.Result{NT: rotFiles >= 2})
+	if r.Err != "" {
+		s.Fail(c, r.Err)
+		t.Fatalf("C18 violated: %s", r.Err)
+	}
+	if rotFiles < 2 {
+		t.Fatalf("INFRA (inconclusive): the 64 s run produced %d file(s); rotation did not happen", rotFiles)
+	}
+}
+
+var (
+	rotCheck bool
+	rotFiles int
+)
